@@ -596,6 +596,10 @@ func (s *seatRun) onNext(pre, post []seatView, prevD int, err error) {
 			}
 			// refused "if, even after waiting players have been let in, fewer than two can play": a refusal
 			// that leaves two or more playable seats behind has let the waiting players in and stalled anyway
+			if Q >= 2 {
+				s.fail("C17/refused-with-two-playable", "waiting-not-let-in", fmt.Sprintf("Next() refused (%v) although %d seated players are not sitting out: let in, two or more could play (playable before the call: %v)", err, Q, P))
+				return
+			}
 			if pp := playableOf(post); len(pp) >= 2 {
 				s.fail("C17/refused-with-two-playable", "after-let-in", fmt.Sprintf("Next() refused (%v) but left seats %v able to play (before the call: %v)", err, pp, P))
 				return
